@@ -69,8 +69,14 @@ def r1_kneighbors(ctx):
         want = ("sub", Q.sub(CFI, 0), ("slice", NONE, const(2), NONE))
         ok = None
         if tr is not None and tr[0] == "call" and callee(tr) == "verde.utils.kdtree" and tr[2]:
-            ok = True if canon(tr[2][0]) == canon(want) or Q.leaves(tr[2][0]) == Q.leaves(want) else None
+            arg = tr[2][0]
+            ok = True if canon(arg) == canon(want) else None
+            if canon(arg) == canon(Q.sub(CFI, 0)) or arg == ("param", "coordinates") or \
+                    (arg[0] == "sub" and arg[1] in (Q.sub(CFI, 0), ("param", "coordinates")) and arg[2][0] == "slice" and arg[2] != ("slice", NONE, const(2), NONE) and arg[2] != ("slice", const(0), const(2), NONE)):
+                ok = False
         why = "tree_ is built on reversed coordinates"
+        if ok is False and tr is not None:
+            why = "tree_ is built on %s, not on the first two coordinates: extra coordinates (height, time, ...) take part in the neighbour search" % show(tr[2][0])[:60]
         if tr is None and "data_" in sets:
             # data_ comes from this call, the tree from an earlier one: neighbours are looked up among the OLD points and their indices
             # are used to gather the NEW values
@@ -111,8 +117,17 @@ def r1_kneighbors(ctx):
                   "k = self.k neighbours are queried", bad="the query uses k=%s" % (show(kq) if isinstance(kq, tuple) else "1 (default)"), fn=qn)
         x = Q.arg(ctx, q, "x")
         wantx = ("call", ("glob", "numpy.transpose"), (("call", ("glob", "verde.base.utils.n_1d_arrays"), (("param", "coordinates"), const(2)), (), 0),), (), 0)
-        ctx.check("R1", "%s|query-points|%s" % (qn, tag), True if isinstance(x, tuple) and (canon(x) == canon(wantx) or Q.leaves(x) == {("param", "coordinates")}) else None,
-                  "query points are built from the query coordinates", fn=qn)
+        okq = True if isinstance(x, tuple) and canon(x) == canon(wantx) else None
+        whyq = ""
+        if okq is None and isinstance(x, tuple):
+            n1 = [y for y in walk(x) if isinstance(y, tuple) and y and y[0] == "call" and callee(y) == "verde.base.utils.n_1d_arrays"]
+            if n1 and Q.arg(ctx, n1[0], "arrays") == ("param", "coordinates"):
+                n_ = Q.arg(ctx, n1[0], "n")
+                if isinstance(n_, tuple) and n_ != const(2):
+                    okq, whyq = False, "the query uses n_1d_arrays(coordinates, %s): extra coordinates take part in the neighbour search (the tree holds easting and northing only)" % show(n_)[:40]
+            elif x[0] == "call" and callee(x) in ("numpy.transpose", "numpy.column_stack") and x[2] and x[2][0] == ("param", "coordinates"):
+                okq, whyq = False, "the query points are built from all the coordinates, not from the first two"
+        ctx.check("R1", "%s|query-points|%s" % (qn, tag), okq, "query points are the C-order raveled first two query coordinates", bad=whyq, fn=qn)
         inner, shp = reshape_target(p.value)
         ctx.check("R1", "%s|output-shape|%s" % (qn, tag), True if shp is not None and canon(shp) == canon(bshape()) else (False if shp is not None and Q.leaves(shp) and not any(x_[0] == "call" and callee(x_) == "numpy.broadcast" for x_ in walk(shp)) else None),
                   "the result has the broadcast shape of the query easting/northing", bad="the result is reshaped to %s" % (show(shp)[:60] if shp else None), fn=qn)
@@ -134,6 +149,10 @@ def r1_kneighbors(ctx):
                     ok_idx = True if idx[2][1] == 1 else False
             elif gi is not None and gi[0] == "sub":
                 ok_data = False if Q.is_self_attr(gi[1]) else None
+        # the reduced values must not be narrowed: mean / median of integer data is fractional
+        nc = [x for x, k_ in Q.narrowing_casts(p.value) if k_ == "narrowing"] if isinstance(p.value, tuple) else []
+        ctx.check("R1", "%s|prediction-not-narrowed|%s" % (qn, tag), False if nc else True, "the reduced values are returned in the dtype the reduction produced",
+                  bad="the prediction is converted with %s: the mean or median of integer data is truncated to the data's dtype" % (show(nc[0])[:70] if nc else ""), fn=qn)
         ctx.check("R1", "%s|reduce-axis|%s" % (qn, tag), ok_red, "the reduction runs over the neighbours (axis=1)", bad="the reduction axis is %s" % (show(kw(inner, 'axis')) if inner and kw(inner, 'axis') else "the default"), fn=qn)
         ctx.check("R1", "%s|gathers-data_|%s" % (qn, tag), ok_data, "values are gathered from data_", bad="values are gathered from another attribute", fn=qn)
         ctx.check("R1", "%s|indices-element|%s" % (qn, tag), ok_idx, "indices = element 1 of the query result", bad="the gather index is element 0 (distances) of the query result", fn=qn)
@@ -162,6 +181,16 @@ def r2_median(ctx):
                   "the tree and the query use the same (projected or raw) point pair", bad="only one of tree/query uses the projected points", fn=qn)
         ctx.check("R2", "%s|projection-applied|%s" % (qn, tag), True if lab_t == proj else (False if lab_t is not None else None),
                   "the projection is applied exactly when one is given", bad="the projection is %s" % ("ignored" if proj else "applied without being given"), fn=qn)
+        # the distances are horizontal: only easting and northing take part (n_1d_arrays(coordinates, 2)), extra coordinates are ignored
+        flat = [y for y in walk(pts) if isinstance(y, tuple) and y and y[0] == "call" and callee(y) == "verde.base.utils.n_1d_arrays"] if pts else []
+        okh = None
+        if flat:
+            n_ = Q.arg(ctx, flat[0], "n")
+            okh = True if n_ == const(2) else (False if isinstance(n_, tuple) and (n_[0] == "call" and callee(n_) == "builtins.len" or (is_const(n_) and n_[1] != 2)) else None)
+            if okh is False and proj and any(isinstance(y, tuple) and y and y[0] == "sub" and y[2] == ("slice", NONE, const(2), NONE) for y in walk(pts)):
+                okh = None        # trimmed to two before the projection on this path
+        ctx.check("R2", "%s|horizontal-coordinates-only|%s" % (qn, tag), okh, "the tree holds the first two coordinates only (extra coordinates such as height are ignored)",
+                  bad="the tree is built on all the coordinates given: with an extra coordinate the distances are no longer horizontal", fn=qn)
         kq = Q.arg(ctx, q, "k")
         want = ("binop", "+", ("param", "k_nearest"), const(1))
         okk = True if isinstance(kq, tuple) and canon(kq) in (canon(want), canon(("binop", "+", const(1), ("param", "k_nearest")))) else \
